@@ -98,6 +98,19 @@ example : ∃ s, Sys.Reach (Ex.chain2 false) s ∧ s.task 1 = .busy true := by
   have h7 := Sys.Reach.step h6 (e := .cmdStart 1) (s' := _) rfl
   exact ⟨_, h7, by decide⟩
 
+/-- Every command — the target's command, an output-check command (also of a target whose `command` is
+    empty), a dependency re-run of minimal mode — starts only inside a pool task that a worker has taken:
+    the walk callback hands every target node to `workerPool.Run`, there is no path around the pool. With
+    `running_le_workers` this bounds the commands running at any instant by `num_workers`. -/
+theorem every_command_needs_a_worker {c : Cfg} {s s' : Sys.State} {n : Node}
+    (h : Sys.step c s (.cmdStart n) = some s') : s.task n = .busy false ∧ s'.task n = .busy true := by
+  simp only [Sys.step] at h
+  split at h
+  · rename_i g
+    simp at h; subst h
+    exact ⟨g.1, by simp [Walker.set]⟩
+  · simp at h
+
 /-- in the composition a command never starts once the walk context is cancelled (fail-fast or
     interrupt) -/
 theorem composed_no_command_start_after_cancel {c : Cfg} {s : Sys.State} (n : Node)
